@@ -10,6 +10,7 @@ import Poulpy.Lemmas.MulNorm
 import Poulpy.Lemmas.CnvModel
 import Poulpy.Lemmas.CnvAssign
 import Poulpy.Lemmas.ValBridge
+import Poulpy.Lemmas.AccAdd
 import Poulpy.Props.C02
 import Poulpy.Props.C07
 
@@ -783,6 +784,105 @@ example (s : List Poly) :
             (fun x => Hal.cnvApplyCol 1 (2 + ([[2]] : Col).length - (cnvOffsetSplit 4 4).1) (cnvOffsetSplit 4 4).1 x
               (Hal.cnvPrepareCol 1 ([[2]] : Col).length (msbMaskBottomLimb 4 4) [[2]]))).getD 1 []) 4 = some [[2], [0]] := by decide
         have hC' := e.symm.trans hC; injection hC' with hC'; subst hC'; decide) s
+instance (c : Col) : Decidable (C02L.ColSmall c) := by unfold C02L.ColSmall C02L.PolySmall; infer_instance
+instance (N : Nat) (c : Col) : Decidable (C02L.LimbsN N c) := by unfold C02L.LimbsN; infer_instance
+
+/-- the tensor's pair columns as handed to the gadget product when the tensor is in the key radix -/
+def relinInput (n : Nat) (a : List Col) (g : GGLWE) : List Col :=
+  (List.range g.colsIn).map (fun i =>
+    Hal.dftApplyCol n 1 0 (((a.getD 0 []).length * g.base2k + g.base2k - 1) / g.base2k) (a.getD (g.colsOut + i) []))
+
+/-- **`relin_decrypts`** — `glwe_tensor_relinearize` with the tensor in the key radix, i64 accumulator (FFT64), every key digit size: one
+composed statement.  `A·phase(res) = B·(Σ_p σ_p·usedVal(a_p) + Σ_p(Σ_r digit·E − dropped − β^S·head) + phase(first columns of the tensor at S limbs))
++ (E₀ + Σ s_i E_{i+1})`: the pair columns are re-encrypted under `s` by the gadget product (`relin_product_value`), the first `rank+1` columns are
+added exactly (`Core.bigAddSmallAssign_exact`, 2^62 head-room), and the final normalisation contributes the kernel relation `(A, B, En)`
+(`Core.acc_norm_compose`, `Lemmas/AccAdd.lean`).  With `σ_p = s_i·s_j` this is `tensor_phase` evaluated under `s`. -/
+theorem relin_decrypts {N : Nat} (rb rs : Nat) (a : List Col) (g : GGLWE) (res0 res : List Col) (sk : List Poly)
+    (hok : relinearize false N rb rs a g.base2k g g.size res0 = some res)
+    (A B : Int) (En : Nat → Poly) (hEn : ∀ i, (En i).length = N)
+    (hPwf : ∀ c ∈ Core.gglweProductDft (relinInput N a g) g g.size res0, C02L.ColWF N g.size c)
+    (hPs : ∀ c ∈ Core.gglweProductDft (relinInput N a g) g g.size res0, C02L.ColSmall c)
+    (hawf : ∀ j, j < g.colsOut → C02L.LimbsN N (a.getD j [])) (has : ∀ j, j < g.colsOut → C02L.ColSmall (a.getD j []))
+    (hres : C02L.GWF N (Ks.mkCt rb N res))
+    (hK : ∀ i, i < g.colsOut → ∀ C,
+      bigNormalizeOff false N rb rs 0 (bigAddSmallAssign false ((Core.gglweProductDft (relinInput N a g) g g.size res0).getD i []) (a.getD i [])) g.base2k
+        = some C →
+      polyScale A (C02L.valP rb N C) = polyAdd (polyScale B (C02L.valP g.base2k N
+        (bigAddSmallAssign false ((Core.gglweProductDft (relinInput N a g) g g.size res0).getD i []) (a.getD i [])))) (En i))
+    (σ : ℕ → Ks.R N) (E : ℕ → ℕ → Ks.R N)
+    (hd : 1 ≤ g.dsize) (hN : 0 < N) (hn : g.n = N) (hc : 0 < g.colsOut)
+    (h0 : shapeOk g.n g.colsOut g.size res0 = true) (hM : ∀ j q, (g.toPMat.entry j q).length = N)
+    (hS : g.dnum * g.dsize ≤ g.size)
+    (hkey : ∀ i, i < g.colsIn → ∀ r, r < g.dnum →
+      Gadget.val ((2 : Ks.R N) ^ g.base2k) g.size (Ks.keyPhase N sk g.toPMat i r)
+        = 1 * σ i * ((2 : Ks.R N) ^ g.base2k) ^ (g.size - (r + 1) * g.dsize) + E i r) :
+    (A : Ks.R N) * Ks.ι N (C02L.valP rb N (Core.Ops.phase sk (Ks.mkCt rb N res)))
+      = (B : Ks.R N) * ((1 * ∑ i ∈ Finset.range g.colsIn,
+            σ i * Gadget.usedVal ((2 : Ks.R N) ^ g.base2k) g.size g.dsize g.dnum ((relinInput N a g).getD 0 []).length
+              (Ks.inLimb N (mkBuf g.n g.colsIn ((relinInput N a g).getD 0 []).length (relinInput N a g)) i)
+        + ∑ i ∈ Finset.range g.colsIn,
+            (∑ r ∈ Finset.range g.dnum,
+                Gadget.digit ((2 : Ks.R N) ^ g.base2k) g.dsize g.dnum ((relinInput N a g).getD 0 []).length
+                  (Ks.inLimb N (mkBuf g.n g.colsIn ((relinInput N a g).getD 0 []).length (relinInput N a g)) i) r * E i r
+              - Gadget.dropped ((2 : Ks.R N) ^ g.base2k) g.size g.dsize g.dnum ((relinInput N a g).getD 0 []).length
+                  (Ks.inLimb N (mkBuf g.n g.colsIn ((relinInput N a g).getD 0 []).length (relinInput N a g)) i) (Ks.keyPhase N sk g.toPMat i)
+              - ((2 : Ks.R N) ^ g.base2k) ^ g.size * Gadget.head ((2 : Ks.R N) ^ g.base2k) g.dsize g.dnum ((relinInput N a g).getD 0 []).length
+                  (Ks.inLimb N (mkBuf g.n g.colsIn ((relinInput N a g).getD 0 []).length (relinInput N a g)) i) (Ks.keyPhase N sk g.toPMat i)))
+          + Ks.ι N (C02L.valP g.base2k N (Core.Ops.phase sk (Ks.mkCt g.base2k N
+              ((List.range g.colsOut).map (fun j => C02L.fit N g.size (a.getD j [])))))))
+        + Ks.ι N (C02L.errTo (min (g.colsOut - 1) sk.length) sk En) := by
+  obtain ⟨n, hn1⟩ : ∃ n, g.colsOut = n + 1 := ⟨g.colsOut - 1, by omega⟩
+  unfold relinearize at hok
+  simp only [ne_eq, not_true_eq_false, if_false, if_true, mapM_some_map, Option.bind_some] at hok
+  have hPlen : (Core.gglweProductDft (relinInput N a g) g g.size res0).length = n + 1 := by
+    simp [Core.gglweProductDft, hn1]
+  have hm : (List.range (n + 1)).mapM (fun j => (fun c => bigNormalizeOff false N rb rs 0 c g.base2k)
+      (bigAddSmallAssign false ((Core.gglweProductDft (relinInput N a g) g g.size res0).getD j []) (a.getD j []))) = some res := by
+    rw [mapM_comp (fun j => bigAddSmallAssign false ((Core.gglweProductDft (relinInput N a g) g g.size res0).getD j []) (a.getD j []))
+      (fun c => bigNormalizeOff false N rb rs 0 c g.base2k), ← hn1]
+    exact hok
+  have h := acc_norm_compose N hN (fun c => bigNormalizeOff false N rb rs 0 c g.base2k) rb g.base2k g.size n
+    (Core.gglweProductDft (relinInput N a g) g g.size res0) (fun j => a.getD j []) res sk hPlen hPwf hPs
+    (fun j hj => hawf j (by omega)) (fun j hj => has j (by omega)) hm hres A B En hEn (fun i hi => hK i (by omega))
+  have h3 := relin_product_value N sk (relinInput N a g) g res0 ((2 : Ks.R N) ^ g.base2k) σ E hd hN hn hc h0 hM hS hkey
+  rw [h, h3, hn1]
+  simp only [Nat.add_sub_cancel]
+
+example (σ : ℕ → Ks.R 1) :
+    ((1 : Int) : Ks.R 1) * Ks.ι 1 (C02L.valP 4 1 (Core.Ops.phase [[1]] (Ks.mkCt 4 1 [[[2], [0], [0]], [[2], [2], [0]]])))
+      = ((1 : Int) : Ks.R 1) * ((1 * ∑ i ∈ Finset.range exTsk.colsIn,
+            σ i * Gadget.usedVal ((2 : Ks.R 1) ^ exTsk.base2k) exTsk.size exTsk.dsize exTsk.dnum ((relinInput 1 ([[[1], [0]], [[0], [1]], [[2], [1]]] : List Col) exTsk).getD 0 []).length
+              (Ks.inLimb 1 (mkBuf exTsk.n exTsk.colsIn ((relinInput 1 ([[[1], [0]], [[0], [1]], [[2], [1]]] : List Col) exTsk).getD 0 []).length (relinInput 1 ([[[1], [0]], [[0], [1]], [[2], [1]]] : List Col) exTsk)) i)
+        + ∑ i ∈ Finset.range exTsk.colsIn,
+            (∑ r ∈ Finset.range exTsk.dnum,
+                Gadget.digit ((2 : Ks.R 1) ^ exTsk.base2k) exTsk.dsize exTsk.dnum ((relinInput 1 ([[[1], [0]], [[0], [1]], [[2], [1]]] : List Col) exTsk).getD 0 []).length
+                  (Ks.inLimb 1 (mkBuf exTsk.n exTsk.colsIn ((relinInput 1 ([[[1], [0]], [[0], [1]], [[2], [1]]] : List Col) exTsk).getD 0 []).length (relinInput 1 ([[[1], [0]], [[0], [1]], [[2], [1]]] : List Col) exTsk)) i) r *
+                  (Gadget.val ((2 : Ks.R 1) ^ exTsk.base2k) exTsk.size (Ks.keyPhase 1 [[1]] exTsk.toPMat i r)
+                    - 1 * σ i * ((2 : Ks.R 1) ^ exTsk.base2k) ^ (exTsk.size - (r + 1) * exTsk.dsize))
+              - Gadget.dropped ((2 : Ks.R 1) ^ exTsk.base2k) exTsk.size exTsk.dsize exTsk.dnum ((relinInput 1 ([[[1], [0]], [[0], [1]], [[2], [1]]] : List Col) exTsk).getD 0 []).length
+                  (Ks.inLimb 1 (mkBuf exTsk.n exTsk.colsIn ((relinInput 1 ([[[1], [0]], [[0], [1]], [[2], [1]]] : List Col) exTsk).getD 0 []).length (relinInput 1 ([[[1], [0]], [[0], [1]], [[2], [1]]] : List Col) exTsk)) i) (Ks.keyPhase 1 [[1]] exTsk.toPMat i)
+              - ((2 : Ks.R 1) ^ exTsk.base2k) ^ exTsk.size * Gadget.head ((2 : Ks.R 1) ^ exTsk.base2k) exTsk.dsize exTsk.dnum ((relinInput 1 ([[[1], [0]], [[0], [1]], [[2], [1]]] : List Col) exTsk).getD 0 []).length
+                  (Ks.inLimb 1 (mkBuf exTsk.n exTsk.colsIn ((relinInput 1 ([[[1], [0]], [[0], [1]], [[2], [1]]] : List Col) exTsk).getD 0 []).length (relinInput 1 ([[[1], [0]], [[0], [1]], [[2], [1]]] : List Col) exTsk)) i) (Ks.keyPhase 1 [[1]] exTsk.toPMat i)))
+          + Ks.ι 1 (C02L.valP exTsk.base2k 1 (Core.Ops.phase [[1]] (Ks.mkCt exTsk.base2k 1
+              ((List.range exTsk.colsOut).map (fun j => C02L.fit 1 exTsk.size (([[[1], [0]], [[0], [1]], [[2], [1]]] : List Col).getD j [])))))))
+        + Ks.ι 1 (C02L.errTo (min (exTsk.colsOut - 1) ([[1]] : List Poly).length) [[1]] (fun _ => [0])) :=
+  relin_decrypts (N := 1) 4 3 ([[[1], [0]], [[0], [1]], [[2], [1]]] : List Col) exTsk (zeroCols 1 2 3) [[[2], [0], [0]], [[2], [2], [0]]] [[1]]
+    (by decide +kernel) 1 1 (fun _ => [0]) (fun _ => rfl)
+    (by decide +kernel) (by decide +kernel) (by decide) (by decide) (by decide)
+    (by
+      intro i hi C hC
+      have hi' : i = 0 ∨ i = 1 := by have : i < 2 := hi; omega
+      rcases hi' with rfl | rfl
+      · have e : bigNormalizeOff false 1 4 3 0 (bigAddSmallAssign false ((Core.gglweProductDft (relinInput 1 ([[[1], [0]], [[0], [1]], [[2], [1]]] : List Col) exTsk) exTsk exTsk.size (zeroCols 1 2 3)).getD 0 []) (([[[1], [0]], [[0], [1]], [[2], [1]]] : List Col).getD 0 [])) exTsk.base2k
+            = some [[2], [0], [0]] := by decide +kernel
+        have hC' := e.symm.trans hC; injection hC' with hC'; subst hC'; decide +kernel
+      · have e : bigNormalizeOff false 1 4 3 0 (bigAddSmallAssign false ((Core.gglweProductDft (relinInput 1 ([[[1], [0]], [[0], [1]], [[2], [1]]] : List Col) exTsk) exTsk exTsk.size (zeroCols 1 2 3)).getD 1 []) (([[[1], [0]], [[0], [1]], [[2], [1]]] : List Col).getD 1 [])) exTsk.base2k
+            = some [[2], [2], [0]] := by decide +kernel
+        have hC' := e.symm.trans hC; injection hC' with hC'; subst hC'; decide +kernel)
+    σ (fun i r => Gadget.val ((2 : Ks.R 1) ^ exTsk.base2k) exTsk.size (Ks.keyPhase 1 [[1]] exTsk.toPMat i r)
+                    - 1 * σ i * ((2 : Ks.R 1) ^ exTsk.base2k) ^ (exTsk.size - (r + 1) * exTsk.dsize))
+    (by decide) (by decide) rfl (by decide) (by decide) (Ks.entry_length exTsk.toPMat 1 rfl (by decide +kernel)) (by decide)
+    (by intro i _ r _; exact (add_sub_cancel _ _).symm)
 /-
 NOT PROVED (checked by correspondence on every generated case, see docs/C05.md):
 * `tensorSquare_eq_tensorApply` and `tensorApply_acc_eq_add` for ranks ≥ 3 (the property's quantifier is rank 1..2;
